@@ -196,6 +196,33 @@ def check_e2e(e2e, case):
     }
 
 
+def check_ndim_sequence(e2e, v, dims):
+    """the same task with the same nested value split several times, each time with another container_ndim, into ONE cache
+    root in one process: every submission must flatten to its own depth, whatever the earlier ones left behind"""
+    rs = H.run_sequence(e2e, [(lambda n=n: build_G("x", {"x": v}, {"x": n})) for n in dims])
+    fails = []
+    for i, (n, r) in enumerate(zip(dims, rs)):
+        exp = [[e, H.unsplit_value("y"), H.K1] for e in SP.flatten_depth(v, n)]
+        got = SP.REJECT if r["exc"] is not None else H.plain(r["out"])
+        if got != exp:
+            fails.append(
+                {
+                    "klass": KLASS if SP.ragged_below(v, n) else None,
+                    "what": f"G.split('x', x={v}) submitted with container_ndim {list(dims)} one after the other into one cache root: submission {i + 1} (container_ndim={n}) gave {got if got != SP.REJECT else r['exc']}, expected {exp}",
+                    "case": {"layer": "ndim-sequence", "v": v, "dims": list(dims), "index": i, "got": got, "expected": exp},
+                }
+            )
+    return fails
+
+
+def _w_seq(cases):
+    e2e = H.E2E()
+    try:
+        return [(v, dims, check_ndim_sequence(e2e, v, dims)) for v, dims in cases]
+    finally:
+        e2e.close()
+
+
 def _w_e2e(cases):
     e2e = H.E2E()
     try:
@@ -332,11 +359,45 @@ def _run(ctx):
             if f:
                 ctx.fail(f["klass"], f["what"], f["case"], domain=dome)
     ph.mark('e2e')
+    # the same value under different container dimensions, one cache root
+    import itertools as _it
+
+    seq_vals = [[[1, 2, 3], [4, 5, 6]], [[1, 2], [3, 4]], [[[1], [2]], [[3], [4]]], [[[1, 2]], [[3, 4]]]]
+    scases = []
+    for v in seq_vals:
+        depth = 3 if isinstance(v[0][0], list) else 2
+        for dims in _it.permutations(range(1, depth + 1), 2):
+            scases.append((v, dims))
+        if depth == 3:
+            scases += [(v, (3, 2, 1)), (v, (1, 2, 3))]
+    doms = ctx.domain(
+        "same value, different container_ndim, one cache root",
+        bound=f"{len(seq_vals)} rectangular nested values (depth 2 and 3) x every ordered pair of different container dimensions (and the two monotone triples for depth 3): the same task with the same value is submitted once per dimension into one cache root in one process",
+        rule="one case per (value, sequence of dimensions); every submission must give the elements at its own depth; non-trivial always",
+        exhaustive=True,
+    )
+    for part in H.pmap(_w_seq, H.chunks(scases, 8), serial=not ctx.thorough, chunksize=1):
+        for v, dims, fails in part:
+            doms.case((repr(v), tuple(dims)), sample={"value": v, "dims": list(dims)})
+            for f in fails:
+                ctx.fail(f["klass"], f["what"], f["case"], domain=doms)
+    ph.mark('ndim-sequences')
     ph.done()
 
 
 def replay(rec):
     case = rec["case"]
+    if case.get("layer") == "ndim-sequence":
+        e2e = H.E2E()
+        try:
+            fails = check_ndim_sequence(e2e, case["v"], tuple(case["dims"]))
+        finally:
+            e2e.close()
+        print(f"replay C04: value {case['v']} dims {case['dims']}: {[f['what'] for f in fails] or 'as expected'}")
+        if fails:
+            print(f"VIOLATION property=C04 replay={rec.get('_path', '')}")
+            return 1
+        return 0
     if case.get("e2e"):
         e2e = H.E2E()
         try:
